@@ -1,5 +1,5 @@
 /-
-  C20 — Linking unions images, resolves externals, and is order-independent.   (partial)
+  C20 — Linking unions images, resolves externals, and is order-independent.   (success condition and order independence proved; grouping checked)
   Proved: the block part of `link` for all object files whose block maps have strictly increasing starts (every map the
   assembler, the readers or `link` itself produces): the result of inserting B's blocks into A is sorted, holds exactly
   the blocks of A and of B when no start occurs in both, the duplicate flag is raised exactly when a start occurs in
@@ -12,9 +12,16 @@
   `linkBlocks_members`: the result then holds exactly the blocks of both files.
   `labels_order_independent` (Lemmas/LinkPatch.lean `linkFold_pointwise`): the merged label table is determined key by key
   (A's entry, B's entry ↦ combined entry), so when both orders succeed every key has the same address and external flag.
-  Not proved: order-independence of the pending relocation table and of nested links (associativity), and that the label
-  folds of the two orders fail together; the correspondence check links generated sets of 2–4 files
-  in every order and bracketing and compares outcomes with each other and with a reference union.
+  `link_ok_iff` (Lemmas/LinkOk.lean): linking two files with symbol tables succeeds exactly when no block start occurs in
+  both, the union of the blocks is pairwise disjoint, and no label is defined (non-external) in both files at different
+  addresses — the property's success condition.
+  `link_order_independent` (Lemmas/LinkRel.lean): the label fold is described exactly (`linkFold_rel`: the final relocation
+  list is the initial one without the entries of resolved labels; the patches are the initial entries of each resolved label
+  with the defining side's address), both descriptions are symmetric in the two files, and a patched image depends only on
+  the set of patches (`patched_image_of_set`); hence `link a b` and `link b a` give the same block map, the same address and
+  external flag for every label, the same pending relocation entries and the same memory image cell by cell.
+  Not proved: grouping (associativity of nested links); the correspondence check links generated sets of 2–4 files in every
+  order and bracketing and compares outcomes with each other and with a reference union.
 -/
 import Lc3V.Lemmas.SortedMap
 import Lc3V.Props.C21
